@@ -1,7 +1,7 @@
 """C15 — within a queue and priority, delivery is first-in first-out (in-memory broker)."""
 from ..common import Ctx, Failure, Result
 from .. import memrun
-from . import _mem
+from . import _mem, _redis
 
 S = memrun.S
 RULE = ("histories with ONE normal consumer per queue (with or without a topic filter; delayed- and dead-category consumers "
@@ -127,6 +127,7 @@ def run(ctx: Ctx) -> Result:
             if kind not in seen:
                 seen.add(kind)
                 res.failures.append(Failure(kind, what, {"history": _mem.strip(h), "where": where}, None))
+    _redis.run_seq(ctx, res, "c15r", {"C15"}, "fifo", 150, 3000, rng)
     return res
 
 
